@@ -207,3 +207,15 @@ Theorem C09_source_tie_to_date_rules :
   (forall from_day to_day ins, price_per_unit_gen from_day to_day ins = price_per_unit to_day ins).
 Proof. exact window_aggregates_gen_agree. Qed.
 Print Assumptions C09_source_tie_to_date_rules.
+
+(** Source tie (regenerated on every run): a lot acquired after a taxable event is invisible to it.  The lookup of
+    `get_acquired_lot_for_taxable_event` (`find_max_value_less_than` of the max-disambiguator key of the event's timestamp over
+    the keys `initialize` inserted), with the key format read from accounting_engine.py as data (Model/GeneratedTie.v, fragment
+    avl_key; interpreter Model/AvlKeyGen.v), is [Matcher.to_index] at the event's instant - the bound all prefix-stability
+    theorems above rest on.  A key built from the wall-clock time or without microseconds lets a later lot through (or hides an
+    earlier one) and stops compiling here (Proofs/AvlKeyGenProofs.v). *)
+From RP2V Require Import Model.AvlKeyGen Proofs.AvlKeyGenProofs.
+Theorem C09_source_tie_lookup_ignores_later_lots :
+  forall lots te, Forall (fun x => 0 <= i_row x <= ak_max_num) lots -> to_index_gen lots te = Some (to_index lots (utc_us te)).
+Proof. exact to_index_gen_agrees. Qed.
+Print Assumptions C09_source_tie_lookup_ignores_later_lots.
